@@ -13,6 +13,11 @@ from .values import (SliceView, AbsObj, AList, BoundMethod, Builtin, ClassRef, E
 
 class CallMixin:
     def ev_Call(self, e, fr):
+        if isinstance(e.func, ast.Name) and e.func.id in ("any", "all") and len(e.args) == 1 and isinstance(e.args[0], ast.GeneratorExp) \
+                and e.func.id not in fr.env:
+            q = self.quantified_any_all(e.func.id, e.args[0], fr)
+            if q is not None:
+                return q
         f = self.ev(e.func, fr)
         args = []
         for a in e.args:
@@ -37,6 +42,30 @@ class CallMixin:
             else:
                 kwargs[k.arg] = self.ev(k.value, fr)
         return self.call(f, args, kwargs, site=f"{fr.finfo.qualname}:{e.lineno}")
+
+    def quantified_any_all(self, name, g, fr):
+        """any()/all() of a generator over an abstract list = bounded quantifier (element expression must be fork-free)"""
+        if len(g.generators) != 1 or g.generators[0].ifs:
+            return None
+        it = self.ev(g.generators[0].iter, fr)
+        if not isinstance(it, (AList, SliceView)):
+            return None
+        i = z3.Int(fresh_name("qa"))
+        saved = dict(fr.env)
+        self.nofork += 1
+        try:
+            self.assign(g.generators[0].target, it.get(i), fr)
+            body = self.ev(g.elt, fr)
+            if isinstance(body, bool):
+                body = z3.BoolVal(body)
+            if not (z3.is_expr(body) and z3.is_bool(body)):
+                raise OutsideSubset("non-boolean element in any()/all() over an abstract list")
+        finally:
+            self.nofork -= 1
+            fr.env.clear()
+            fr.env.update(saved)
+        rng = z3.And(0 <= i, i < it.n)
+        return z3.Exists([i], z3.And(rng, body)) if name == "any" else z3.ForAll([i], z3.Implies(rng, body))
 
     def call(self, f, args, kwargs=None, site=None):
         kwargs = kwargs or {}
